@@ -697,11 +697,23 @@ def br_table_result_module():
     return mod("".join(F) + body)
 
 
+def memret_stack_args_module():
+    """a function with more than two results (returned through memory) AND stack-passed arguments
+    (the shape of the Wa runtime's slice append: 8 words in, 4 words out)"""
+    F = ("  (func $app (param i32 i32 i32 i32 i32 i32 i32 i32) (result i32 i32 i32 i32)\n"
+         "    local.get 0 local.get 4 i32.add  local.get 1 local.get 5 i32.add  local.get 2 local.get 6 i32.add  local.get 3 local.get 7 i32.add\n  )\n"
+         "  (func $app64 (param i64 i64 i64 i64 i64 i64 i64) (result i64 i64 i64) local.get 4 local.get 5 local.get 6)\n")
+    body = ('  (func $main (export "_start")\n    i32.const 1 i32.const 2 i32.const 3 i32.const 4 i32.const 10 i32.const 20 i32.const 30 i32.const 40 call $app call $p32 call $p32 call $p32 call $p32\n'
+            "    i64.const 1 i64.const 2 i64.const 3 i64.const 4 i64.const 5 i64.const 6 i64.const 7 call $app64 call $p call $p call $p\n  )\n")
+    return mod(F + body)
+
+
 def extra_scenarios(rng, quick):
     return [("local_init", local_init_module()), ("float_stack_args", float_stack_args_module()), ("elem_offset", elem_offset_module()),
             ("indirect_stack_i64", indirect_stack_i64_module()), ("br_if_twice", br_if_twice_module()), ("global_float", global_float_module()),
             ("multi_result", multi_result_module()), ("br_if_extra_operands", br_if_extra_operands_module()),
-            ("br_table_extra_operands", br_table_extra_operands_module()), ("br_table_result", br_table_result_module())]
+            ("br_table_extra_operands", br_table_extra_operands_module()), ("br_table_result", br_table_result_module()),
+            ("memret_stack_args", memret_stack_args_module())]
 
 
 def inline_batch_module(items):
